@@ -783,17 +783,26 @@ func (l *listUsersQuery) expandExclusion(
 		close(subtractFoundUsersCh)
 	}()
 
+	// Each branch's stream is a union of everything found below it: a user reached through one
+	// path holds the branch even if another path (e.g. through an inner exclusion) reports no
+	// relationship for it, whichever arrives last.
+	keepFound := func(m map[string]foundUser, fu foundUser) {
+		key := tuple.UserProtoToString(fu.user)
+		if existing, ok := m[key]; ok && existing.relationshipStatus == HasRelationship && fu.relationshipStatus == NoRelationship {
+			return
+		}
+		m[key] = fu
+	}
+
 	baseFoundUsersMap := make(map[string]foundUser, 0)
 	for fu := range baseFoundUsersCh {
-		key := tuple.UserProtoToString(fu.user)
-		baseFoundUsersMap[key] = fu
+		keepFound(baseFoundUsersMap, fu)
 	}
 
 	subtractFoundUsersMap := make(map[string]foundUser, len(baseFoundUsersMap))
 
 	for fu := range subtractFoundUsersCh {
-		key := tuple.UserProtoToString(fu.user)
-		subtractFoundUsersMap[key] = fu
+		keepFound(subtractFoundUsersMap, fu)
 	}
 
 	if subtractHasCycle {
